@@ -131,12 +131,20 @@ func unexpectedTokenError(got, expected interface{}) error {
 }
 
 func (e fieldError) Error() string {
-	return fmt.Sprintf("field %s: %s", strings.Join(e.pathToField, "."), e.err.Error())
+	// pathToField is stored innermost first
+	path := make([]string, len(e.pathToField))
+	for idx, part := range e.pathToField {
+		path[len(path)-1-idx] = part
+	}
+	return fmt.Sprintf("field %s: %s", strings.Join(path, "."), e.err.Error())
 }
 
+// parent adds the enclosing field to the path. The path is kept innermost
+// first so that each level is an append: prepending copied the whole path at
+// every level, which is quadratic in the nesting depth of the document.
 func (e fieldError) parent(field string) error {
 	return fieldError{
-		pathToField: append([]string{field}, e.pathToField...),
+		pathToField: append(e.pathToField, field),
 		err:         e.err,
 	}
 }
